@@ -10,11 +10,15 @@
 (*                                                                         *)
 (* Where the standard is ambiguous the grammar is parameterised by a mode  *)
 (* record and BOTH settings are admissible (DESIGN.md 3.3, 3.6, app. A):   *)
-(*   m.r   TRUE  = reference binding powers (lhs.* binds its right-hand    *)
-(*                 side with 40, a multi-select reached through "." ends   *)
-(*                 a right-hand side, filter 21, "!" 45, unary sign 6)     *)
-(*         FALSE = the uniform rule of property C01 (every projection's    *)
-(*                 right-hand side extends to the next stop token)         *)
+(*   m.ds m.ms m.fl m.nt m.sg   one switch per table entry on which the    *)
+(*         reference binding powers (TRUE) and the uniform rule of         *)
+(*         property C01 (FALSE: every projection's right-hand side extends *)
+(*         to the next stop token) differ:  ds  lhs.* binds its right-hand *)
+(*         side with 40 / 20;  ms  a multi-select reached through "." ends *)
+(*         a right-hand side / does not;  fl  filter 21 / 20;  nt  "!" 45  *)
+(*         / below the selectors;  sg  unary sign 6 / tighter than every   *)
+(*         binary operator.  The entries are independent: an               *)
+(*         implementation may follow either reading for each.              *)
 (*   m.kw  TRUE  = let / in are reserved words; FALSE = contextual         *)
 (*   m.ws  TRUE  = blanks allowed inside "[*]" and ".*"; FALSE = not       *)
 (*   m.len TRUE  = lenient literals (unpaired surrogate -> U+FFFD, raw     *)
@@ -67,10 +71,10 @@ LedBp(k) == CASE k = "pipe" -> 1
               [] OTHER -> 0
 ProjStop == 10
 StarBp(m)     == 20
-DotStarBp(m)  == IF m.r THEN 40 ELSE 20
-FilterBp(m)   == IF m.r THEN 21 ELSE 20
-NotBp(m)      == IF m.r THEN 45 ELSE 8
-SignBp(m)     == IF m.r THEN 6 ELSE 8
+DotStarBp(m)  == IF m.ds THEN 40 ELSE 20
+FilterBp(m)   == IF m.fl THEN 21 ELSE 20
+NotBp(m)      == IF m.nt THEN 45 ELSE 8
+SignBp(m)     == IF m.sg THEN 6 ELSE 8
 
 BinOp(k) == CASE k = "plus" -> "+" [] k = "minus" -> "-" [] k \in {"star", "mult"} -> "*"
               [] k = "div" -> "/" [] k = "idiv" -> "//" [] k = "mod" -> "%"
@@ -248,10 +252,10 @@ DotRhs(ts, i, p, m) ==
   IF k \in {"id", "qid", "star"} THEN Expr(ts, i, p, m)
   ELSE IF k = "lbracket"
        THEN LET r == MSListRest(ts, i + 1, <<>>, m) IN
-            IF ~r.ok THEN PFail ELSE IF m.r THEN r ELSE Led(ts, r.n, r.i, p, m)
+            IF ~r.ok THEN PFail ELSE IF m.ms THEN r ELSE Led(ts, r.n, r.i, p, m)
   ELSE IF k = "lbrace"
        THEN LET r == MSHashRest(ts, i + 1, <<>>, m) IN
-            IF ~r.ok THEN PFail ELSE IF m.r THEN r ELSE Led(ts, r.n, r.i, p, m)
+            IF ~r.ok THEN PFail ELSE IF m.ms THEN r ELSE Led(ts, r.n, r.i, p, m)
   ELSE PFail
 
 \* e1, e2, ... ]   (i = first token of the next element)
@@ -304,8 +308,12 @@ ParseToks(ts, m) ==
   IF e.ok /\ e.i = Len(ts) + 1 THEN [ok |-> TRUE, n |-> e.n] ELSE [ok |-> FALSE, n |-> Cur]
 
 \* ---------------------------------------------------------------- modes
-Mode(r, kw, ws, len) == [r |-> r, kw |-> kw, ws |-> ws, len |-> len]
+Mode(ds, ms, fl, nt, sg, kw, ws, len) ==
+  [ds |-> ds, ms |-> ms, fl |-> fl, nt |-> nt, sg |-> sg, kw |-> kw, ws |-> ws, len |-> len]
 \* which mode dimensions can matter for these tokens
+HasTok(ts, k) == \E i \in 1..Len(ts) : ts[i].k = k
+HasDotStar(ts) == \E i \in 1..Len(ts) : K(ts, i) = "dot" /\ K(ts, i + 1) = "star"
+HasDotMS(ts) == \E i \in 1..Len(ts) : K(ts, i) = "dot" /\ K(ts, i + 1) \in {"lbracket", "lbrace"}
 HasKwTok(ts) == \E i \in 1..Len(ts) : IsKw(ts[i], <<108,101,116>>) \/ IsKw(ts[i], <<105,110>>)
 HasWsComposite(ts) ==
   \E i \in 1..Len(ts) :
@@ -316,10 +324,15 @@ HasOpenLit(ts) ==
   \E i \in 1..Len(ts) :
      \/ ts[i].k \in {"qid", "json"} /\ HasOpenJStr(ts[i].cp, 2)
      \/ ts[i].k = "int" /\ IntTooBig(ts[i].cp)
-Modes(ts) == { Mode(r, kw, ws, len) :
-                 r \in BOOLEAN,
-                 kw \in (IF HasKwTok(ts) THEN BOOLEAN ELSE {TRUE}),
-                 ws \in (IF HasWsComposite(ts) THEN BOOLEAN ELSE {TRUE}),
-                 len \in (IF HasOpenLit(ts) THEN BOOLEAN ELSE {TRUE}) }
-DefaultMode == Mode(TRUE, TRUE, TRUE, TRUE)
+Both(c) == IF c THEN BOOLEAN ELSE {TRUE}
+Modes(ts) == { Mode(ds, ms, fl, nt, sg, kw, ws, len) :
+                 ds \in Both(HasDotStar(ts)), ms \in Both(HasDotMS(ts)),
+                 fl \in Both(HasTok(ts, "filter")), nt \in Both(HasTok(ts, "not")),
+                 sg \in Both(HasTok(ts, "minus") \/ HasTok(ts, "plus")),
+                 kw \in Both(HasKwTok(ts)), ws \in Both(HasWsComposite(ts)),
+                 len \in Both(HasOpenLit(ts)) }
+DefaultMode == Mode(TRUE, TRUE, TRUE, TRUE, TRUE, TRUE, TRUE, TRUE)
+\* the two pure readings of DESIGN.md appendix A
+ModeR == DefaultMode
+ModeU == Mode(FALSE, FALSE, FALSE, FALSE, FALSE, TRUE, TRUE, TRUE)
 =============================================================================
